@@ -67,7 +67,7 @@ def const_rules(facts, rep):
         from engine.intervals import Intervals
         summ = const_return_summaries(facts)
         spans = [slice_span(x) for x in (ck, hk, vr)]
-        good = all(sp is not None for sp in spans) and show(v0) == "vec::from_elem(0, 2)"
+        good = all(sp is not None for sp in spans) and show(v0) in ("vec::from_elem(0, 2)", "[0; 2]")
         if good:
             buf = norm(ex.operand(pb[0][1]["args"][3], (pb[0][0], None))) if pb else None
             good = all(sp[0] == buf or canon(sp[0]) == canon(buf) for sp in spans)
@@ -107,6 +107,14 @@ def const_rules(facts, rep):
     ci = facts.method(r"^aes_ctr::AesCtrZipKeyStream<", "crypt_in_place", r"aes_ctr::AesCipher")
     w = calls_matching(ci, r"WriteBytesExt::write_u128$")
     good = len(w) == 1 and any("LittleEndian" in g for g in (w[0][1].get("gargs") or []))
+    if not w:
+        # the same 16 bytes spelled `self.buffer = self.counter.to_le_bytes()`
+        exci = Ex(ci)
+        tl = calls_matching(ci, r"num::<impl u128>::to_le_bytes$")
+        good = len(tl) == 1 and norm(exci.operand(tl[0][1]["args"][0], (tl[0][0], None))) == ("field", ("arg", 1, "self"), "counter") and \
+            any(s_["k"] == "assign" and [q.get("n") for q in s_["place"]["p"] if q["k"] == "field"] == ["buffer"] and
+                any(x[0] == "call" and x[1].endswith("to_le_bytes") for x in walk(norm(exci.rvalue(s_["rv"], (b_, i_)))))
+                for b_, i_, s_ in ci.stmts())
     ok &= rep.check(good, rule, "ctr-little-endian", where(ci, ci.span), "counter block = u128 little endian", "counter block is not written as a little-endian u128")
     rep.floor(rule, 10)
     return ok
@@ -253,7 +261,22 @@ def open_rules(facts, rep):
     nw = facts.one(r"^aes::AesReader::<R>::new$")
     exn = Ex(nw)
     CS = ("arg", 3, "compressed_size")
-    NEED = {"2", "10", "salt_length()"}
+    def is_overhead(x):
+        """x == 2 + 10 + salt_length(mode), however the literals are grouped or named"""
+        while x[0] == "cast":
+            x = x[1]
+        terms, work = [], [x]
+        while work:
+            y = work.pop()
+            while y[0] == "cast":
+                y = y[1]
+            if y[0] == "bin" and y[1] == "Add":
+                work += [y[2], y[3]]
+            else:
+                terms.append(y)
+        consts = [y[2] for y in terms if y[0] in ("const", "named") and isinstance(y[2], int)]
+        rest = [y for y in terms if not (y[0] in ("const", "named") and isinstance(y[2], int))]
+        return sum(consts) == 12 and len(rest) == 1 and rest[0][0] == "call" and rest[0][1].endswith("AesMode::salt_length")
     ags = list(aggregates(nw, r"aes::AesReader$"))
     good = len(ags) >= 1
     for bi, si, s_, fl in ags:
@@ -265,8 +288,8 @@ def open_rules(facts, rep):
         if inner is not None and inner[0] == "call" and inner[1].endswith("checked_sub"):
             # checked form: compressed_size.checked_sub(overhead) with the None case turned into an error
             a0, a1 = inner[2][0], inner[2][1]
-            this = a0 == CS and NEED <= tokens(a1)
-        elif dl[0] == "bin" and dl[1] == "Sub" and dl[2] == CS and NEED <= tokens(dl[3]):
+            this = a0 == CS and is_overhead(a1)
+        elif dl[0] == "bin" and dl[1] == "Sub" and dl[2] == CS and is_overhead(dl[3]):
             # explicit form: `if compressed_size < overhead { return Err } ... compressed_size - overhead`
             want = show(canon(dl[3]))
             for x in dominating_facts(nw, exn, bi):
